@@ -5,8 +5,8 @@ package shell
 // C25, schedule half -- concurrent shell sessions never exceed the configured maximum.
 //
 // Schedules (engine E3): internal/shell/executor.go is mechanically rewritten (sync -> vsync; a
-// scheduling point before every statement of AcquireSession / ReleaseSession / ActiveSessions /
-// validateAndAcquire, so that a change that drops or narrows the lock is an explored interleaving).
+// scheduling point before every statement of AcquireSession / ReleaseSession / ActiveSessions,
+// so that a change that drops or narrows the lock is an explored interleaving).
 // A real Executor with MaxSessions in {1,2} and three threads, each running one request kind:
 //   acq : AcquireSession ... ReleaseSession              (what the handler's PTY path boils down to)
 //   new : NewSession (real validation + exec.Cmd + pipes, never started) ... close pipes, ReleaseSession
@@ -174,15 +174,20 @@ func c25SchedCheck(r *vmc.Result, sc c25SchedScenario, w *c25SchedWorld, out sch
 
 func c25SchedScenarios(r *vmc.Result) []c25SchedScenario {
 	kinds := [][]string{{"acq", "acq", "acq"}, {"acq", "acq", "new"}, {"new", "new", "acq"}, {"acq", "new", "bad"}}
+	againKinds := [][]string{{"acq", "acq", "new"}}
 	if r.Thorough() {
 		kinds = append(kinds, []string{"new", "new", "new"}, []string{"bad", "acq", "acq"})
+		againKinds = kinds
 	}
 	var out []c25SchedScenario
-	for _, again := range []bool{false, true} {
-		for _, max := range []int{1, 2} {
-			for _, k := range kinds {
-				out = append(out, c25SchedScenario{Max: max, Kinds: k, Again: again})
-			}
+	for _, max := range []int{1, 2} {
+		for _, k := range kinds {
+			out = append(out, c25SchedScenario{Max: max, Kinds: k})
+		}
+	}
+	for _, max := range []int{1, 2} {
+		for _, k := range againKinds {
+			out = append(out, c25SchedScenario{Max: max, Kinds: k, Again: true})
 		}
 	}
 	return out
@@ -190,8 +195,8 @@ func c25SchedScenarios(r *vmc.Result) []c25SchedScenario {
 
 // c25Sched is the schedule half of TestVerif_C25 (called from harness_test.go).
 func c25Sched(r *vmc.Result) {
-	r.Rule += " || schedules: per scenario (MaxSessions in {1,2} x three request kinds from {AcquireSession, NewSession, NewSession for a forbidden command} x with/without a second round) all interleavings of the three threads over the real rewritten Executor (statement granularity inside AcquireSession/ReleaseSession/ActiveSessions/validateAndAcquire) up to the preemption bound; non-trivial = executions in which one request was granted and another refused (distinct by scenario and counts)"
-	r.Assume("schedule half: scheduling points at every mutex operation of internal/shell/executor.go and before every statement of AcquireSession/ReleaseSession/ActiveSessions/validateAndAcquire; sessions are built by the real NewSession but never started; finer-grained effects (torn counter updates) only through the separate -race pass")
+	r.Rule += " || schedules: per scenario (MaxSessions in {1,2} x three request kinds from {AcquireSession, NewSession, NewSession for a forbidden command} x with/without a second round) all interleavings of the three threads over the real rewritten Executor (statement granularity inside AcquireSession/ReleaseSession/ActiveSessions) up to the preemption bound; non-trivial = executions in which one request was granted and another refused (distinct by scenario and counts)"
+	r.Assume("schedule half: scheduling points at every mutex operation of internal/shell/executor.go and before every statement of AcquireSession/ReleaseSession/ActiveSessions; sessions are built by the real NewSession but never started; finer-grained effects (torn counter updates) only through the separate -race pass")
 	var rp c25SchedScenario
 	if r.ReplayInto(&rp) {
 		if !rp.Sched {
@@ -202,8 +207,14 @@ func c25Sched(r *vmc.Result) {
 		r.Add("evaluations", 1)
 		return
 	}
-	bound := vmc.Pick(r, 3, 4)
-	r.Info["sched_preemption_bound"] = bound
+	// preemption bound: 2 (quick); thorough 3 for the single-round scenarios, 2 for those with a second round
+	boundFor := func(sc c25SchedScenario) int {
+		if r.Thorough() && !sc.Again {
+			return 3
+		}
+		return 2
+	}
+	r.Info["sched_preemption_bound"] = map[string]int{"single_round": boundFor(c25SchedScenario{}), "second_round": 2}
 	completed := 0
 	execs := 0
 	for idx, sc := range c25SchedScenarios(r) {
@@ -228,7 +239,7 @@ func c25Sched(r *vmc.Result) {
 			if execs%256 == 0 {
 				runtime.GC() // child ends of the never-started pipes are closed by finalizers
 			}
-		}, vmc.DFSOpts{Bound: bound})
+		}, vmc.DFSOpts{Bound: boundFor(sc)})
 		r.Shards, r.Shard = shards, shard
 		r.Add("evaluations", st.Executions)
 		r.Add("sched_executions", st.Executions)
